@@ -63,6 +63,13 @@ def build_request(rid):
         zf, proff = vertical_profiles(32, 10.0, (3.0, 1.0), ustar=0.4, mol=-200.0)
         kw.update(z=zf, profiles=proff, domain=(100.0, 75.0), footprint=False, meas_pt=(0.0, 0.0), precision="double", levels=[16, 32], modes=(64, 48), halo=50.0)
         shape = (48, 64)
+    elif rid == 10:
+        # outside the model's alphabet: a padded grid of 90 x 90 (not a power of two, many plans to choose from)
+        from bldfm.pbl_model import vertical_profiles
+
+        zf, proff = vertical_profiles(12, 10.0, (3.0, 1.0), ustar=0.4, mol=-200.0)
+        kw.update(z=zf, profiles=proff, domain=(100.0, 100.0), footprint=False, meas_pt=(0.0, 0.0), precision="double", levels=[3, 11], modes=(48, 48), halo=100.0)
+        shape = (30, 30)
     q = rng.uniform(-1, 2, size=shape)
     return q, kw
 
@@ -359,6 +366,19 @@ def main():
                               % (rid, d, "equals" if max(rel(c_b, c_a), rel(f_b, f_a)) == 0.0 else "is not"), {"kind": "source_updated_in_place", "request": rid}, klass={"check": "in_place_source", "request": rid})
         finally:
             np.copyto(q, saved)
+    # MANY repetitions in a row (one thread, one FFT manager, nothing in between): the sixth call returns the bits of the first
+    soft_reset()
+    for rid in (1, 5, 2, 8, 10, 9):
+        c0, f0 = solve_request(rid)
+        c0, f0 = np.array(c0), np.array(f0)
+        for rep in range(2, 8):
+            c_r, f_r = solve_request(rid)
+            nsolves += 1
+            if not (np.array_equal(c_r, c0) and np.array_equal(f_r, f0)):
+                chk.violation("request %d repeated %d times in a row in one process: call %d is not bit-identical to the first (max rel diff %.3e)" % (rid, rep, rep, max(rel(c_r, c0), rel(f_r, f0))),
+                              {"kind": "many_repeats", "request": rid, "call": rep}, klass={"check": "repeat_bitwise", "request": rid})
+                break
+        chk.case(json.dumps(["seven in a row", rid]))
     # single vs double precision: storage rounding only
     soft_reset()
     c1, f1 = solve_request(1)
